@@ -258,7 +258,7 @@ def match_c12(pid, v):
     last = v["segment"][-1]
     for f in V.open_findings(pid):
         if (f["id"] == "F33" and "I_C12tamper" in v.get("rules", []) and last.get("ev") == "tamper" and last.get("kind") == "interest" and last.get("signer") == "none"
-                and last.get("region") == "params" and last.get("off") == 0 and last.get("outcome") == "accepted"):
+                and last.get("region") in ("params", "params/ReadPacket") and last.get("off") == 0 and last.get("outcome") == "accepted"):
             return f
     return None
 
